@@ -1,6 +1,8 @@
 From Coq Require Import Extraction ExtrOcamlBasic.
-From Mamba Require Import Canon.AutBase Canon.Aut Canon.Group Canon.Orbit Canon.GroupOrder Canon.AutCheck Canon.GroupEdgeless Canon.AutReset.
+(* definitions only: the extraction does not depend on any proof file of the area *)
+From Mamba Require Import Canon.AutModel.
+From Mamba Require Canon.AutResetModel.
 Extraction Language OCaml.
 Extraction "model.ml" adj_of cls_of is_automorphism labels_of_ds orbits_of group_order
   aut_bruteforce check_full check_partial edgeless_gens edgeless_ds
-  AutReset.reset AutReset.new_op AutReset.visible AutReset.isort.
+  AutResetModel.reset AutResetModel.new_op AutResetModel.visible AutResetModel.isort.
